@@ -30,6 +30,23 @@ Theorem C19_edits_of_the_original_leave_the_clone : forall es o c, disjoint o c 
 Proof. exact original_edits_leave_clone. Qed.
 Print Assumptions C19_edits_of_the_original_leave_the_clone.
 
+(* the copy rule is the regenerated if/elif chain of Cloning.clone: every recognised kind of value with a mutable part
+   (strings are included for completeness) is copied or rendered; only values outside these kinds are shared, and the
+   heap walk of the oracle checks that none of those has a mutable part *)
+Theorem C19_recognised_kinds_are_copied : forall r j k, In k [VStr; VList; VOriented; VFieldArray] -> clone_mode r j k <> Share.
+Proof. exact recognised_kind_copied. Qed.
+Print Assumptions C19_recognised_kinds_are_copied.
+
+Theorem C19_recognised_line_not_shared : forall l,
+  (forall f, In f l -> locs (f_val f) = [] \/ In (f_kind f) [VStr; VList; VOriented; VFieldArray]) -> no_mutable_shared l.
+Proof. exact recognised_line_not_shared. Qed.
+Print Assumptions C19_recognised_line_not_shared.
+
+(* the clone gets its own table of tag datatypes and is built from the copied values (read from the source) *)
+Theorem C19_clone_has_its_own_tables : Gen.K_clone.k_clone_copies_datatypes = true /\ Gen.K_clone.k_clone_built_from_copies = true.
+Proof. split; reflexivity. Qed.
+Print Assumptions C19_clone_has_its_own_tables.
+
 (* non-vacuity: a path-like line with a list of oriented references, a list of CIGARs, a JSON tag and an integer tag *)
 Definition demo : pline :=
   [mkField "segment_names" true false VList (Node 1 "list" [Node 2 "ol" [Leaf "A+"]; Node 3 "ol" [Leaf "B-"]]);
